@@ -172,6 +172,35 @@ def stored_options_history(spec, it_a, it_b):
     return fails
 
 
+def coupling_layers():
+    """the documented coupling on the real init_options, over every placement of the two options in the two layers:
+    internal data is reused iff reuse_internal_data resolves to True AND only_update_hydraulic_matrix resolves to True
+    (call > user > default for each of them separately)"""
+    import itertools
+    import pandapipes as pp
+    from pandapipes.pf import pipeflow_setup
+    fails, n = [], 0
+    vals = (None, False, True)           # None = not given in that layer
+    for uu, uc, ru, rc in itertools.product(vals, repeat=4):
+        net = pp.create_empty_network(fluid="water")
+        stored = {k: v for k, v in (("only_update_hydraulic_matrix", uu), ("reuse_internal_data", ru)) if v is not None}
+        if stored:
+            pp.set_user_pf_options(net, **stored)
+        kw = {k: v for k, v in (("only_update_hydraulic_matrix", uc), ("reuse_internal_data", rc)) if v is not None}
+        pipeflow_setup.init_options(net, **kw)
+        n += 1
+        upd = uc if uc is not None else (uu if uu is not None else False)
+        reu = rc if rc is not None else (ru if ru is not None else False)
+        exp = bool(upd and reu)
+        got = net["_options"]["reuse_internal_data"]
+        if bool(got) != exp or bool(net["_options"]["only_update_hydraulic_matrix"]) != bool(upd):
+            fails.append({"fingerprint": "C14:coupling:reuse-needs-update", "clause": "internal data is reused only together with the matrix-update option",
+                          "detail": {"user": stored, "call": kw, "reuse_in_force": bool(got), "expected": exp,
+                                     "update_in_force": bool(net["_options"]["only_update_hydraulic_matrix"])},
+                          "replay": {"case": {"layer": "coupling"}}})
+    return fails, n
+
+
 def search(ctx, escalate=False):
     """observable effect on a real calculation: iteration budget and friction model actually used"""
     import pandapipes as pp
@@ -209,7 +238,10 @@ def search(ctx, escalate=False):
         f = stored_options_history(spec, it_u, it_k)
         n += 1
         fails.extend(f)
-    return {"evaluations": n, "distinct_nontrivial": len(hashes), "failures": fails, "samples": samples,
+    cf, cn = coupling_layers()
+    fails.extend(cf[:3])
+    n += cn
+    return {"evaluations": n, "distinct_nontrivial": len(hashes) + cn, "failures": fails, "samples": samples,
             "rule": "the correspondence enumerates every option key x presence pattern, every iter/stage-key pattern of both "
                     "layers and the couplings completely (see correspondence stats); the search additionally runs real "
                     "pipeflows and checks the iteration budget / friction model in force"}
@@ -217,6 +249,8 @@ def search(ctx, escalate=False):
 
 def replay(ctx, payload):
     case = payload.get("case", {})
+    if case.get("layer") == "coupling":
+        return coupling_layers()[0][:3] or None
     if case.get("layer") == "history":
         return stored_options_history(case["spec"], case["it_u"], case["it_k"]) or None
     return None
